@@ -516,6 +516,14 @@ func run(c *core.Ctx) {
 		{`{{if .C}}<script{{else}}<div{{end}}>static</div><p>{{.V}}</p>`, "", "Script"}, {`{{if .C}}<script{{else}}<div{{end}}><br>{{.V}}`, "", "Script"}, {`{{if .C}}<script>{{else}}<title>{{end}}//</title> {{.V}}</script>`, "", "Script"},
 		{`<s{{/**/}}cript><b>{{.V}}</b></script>`, "", "Script"}, {`<s{{/**/}}cript><!---->{{.V}}</script>`, "", "Script"}, {`<s{{/**/}}tyle><i title="{{.V}}">x</i></style>`, "", "StyleSheet"},
 		{`<script </script>{{.V}}</script>`, "", "Script"}, {`<style </style>{{.V}}</style>`, "", "StyleSheet"},
+		{`<meta http-equiv="refresh" content="{{.V}}">`, "content", "Reject"}, {`<meta name="description" content="{{.V}}">`, "content", "Reject"}, {`<meta content='{{.V}}'>`, "content", "Reject"},
+		{`<base href="{{.V}}">`, "href", "Reject"}, {`<a ping="{{.V}}">x</a>`, "ping", "Reject"}, {`<object data="{{.V}}"></object>`, "data", "Reject"}, {`<embed src="{{.V}}">`, "src", "Reject"},
+		{`<svg><use href="{{.V}}"></use></svg>`, "href", "Reject"}, {`<svg><a xlink:href="{{.V}}">x</a></svg>`, "xlink:href", "Reject"}, {`<math href="{{.V}}">x</math>`, "href", "Reject"},
+		{`<body background="{{.V}}">`, "background", "Reject"}, {`<html manifest="{{.V}}">`, "manifest", "Reject"}, {`<applet codebase="{{.V}}">`, "codebase", "Reject"}, {`<img usemap="{{.V}}">`, "usemap", "Reject"},
+		{`<form target="x" formtarget="{{.V}}">`, "formtarget", "Reject"}, {`<link imagesrcset="{{.V}}">`, "imagesrcset", "Reject"}, {`<svg><set attributeName="href" to="{{.V}}"/></svg>`, "to", "Reject"},
+		{`<script type="text/plain">{{.V}}</script>`, "", "Script"}, {`<script type="application/json">{{.V}}</script>`, "", "Script"}, {`<script type="text/javascript" type="text/plain">{{.V}}</script>`, "", "Script"},
+		{`<script type="text/&#106;avascript">{{.V}}</script>`, "", "Script"}, {`<script type="text/java{{/**/}}script">{{.V}}</script>`, "", "Script"}, {`<script type{{/**/}}x="text/plain">{{.V}}</script>`, "", "Script"},
+		{`<script {{if .C}}title{{else}}type{{end}}="text/plain">{{.V}}</script>`, "", "Script"}, {`<script type="module">{{.V}}</script>`, "", "Script"}, {`<script type="">{{.V}}</script>`, "", "Script"},
 		{`<p.x>{{.V}}</p.x>`, "", "Reject"}, {`<a_b href="{{.V}}">`, "", "Reject"}, {`<p.=""title="{{.V}}">`, "", "Reject"},
 	} {
 		if c.Mine(i) {
